@@ -17,6 +17,9 @@ import (
 
 func init() { props["C03"] = runC03 }
 
+// canonFnRaw: function names are written as spelled (the Lean driver's canonical form) instead of upper-cased
+var canonFnRaw bool
+
 // realExpr: canonical text of a real expression, in the format of GExpr.canon
 func realExpr(e ast.Expression) string {
 	switch x := e.(type) {
@@ -118,7 +121,14 @@ func realExpr(e ast.Expression) string {
 		if x.Filter != nil {
 			extra += " filter"
 		}
-		return "fn " + strings.ToUpper(x.Name) + "(" + d + strings.Join(xs, ",") + ")" + extra
+		name := strings.ToUpper(x.Name)
+		if canonFnRaw {
+			name = x.Name
+		}
+		if len(x.OrderBy) > 0 || len(x.WithinGroup) > 0 {
+			extra += " orderby"
+		}
+		return "fn " + name + "(" + d + strings.Join(xs, ",") + ")" + extra
 	case *ast.CaseExpression:
 		s := "case(" + realExpr(x.Value) + ";"
 		for _, w := range x.WhenClauses {
@@ -350,7 +360,9 @@ func runC03(c *runCtx) {
 		if err != nil {
 			real = "ERR " + errCode(err)
 		} else {
+			canonFnRaw = true
 			real = fmt.Sprintf("OK %s %d", realExpr(e), len(ts)-pos)
+			canonFnRaw = false
 		}
 		if real != ans {
 			var lits []string
@@ -380,7 +392,25 @@ func runC03(c *runCtx) {
 			}
 			return g.literal()
 		}
-		switch g.r.Intn(8) {
+		switch g.r.Intn(13) {
+		case 8:
+			return &GExpr{K: "isnull", Not: g.r.Bool(), A: []*GExpr{coreExpr(d - 1)}}
+		case 9:
+			return &GExpr{K: "between", Not: g.r.Bool(), A: []*GExpr{coreExpr(d - 1), coreExpr(d - 1), coreExpr(d - 1)}}
+		case 10:
+			return &GExpr{K: "like", Op: g.r.Pick([]string{"LIKE", "ILIKE"}), Not: g.r.Bool(), A: []*GExpr{coreExpr(d - 1), coreExpr(d - 1)}}
+		case 11:
+			xs := []*GExpr{coreExpr(d - 1)}
+			for k := 0; k < 1+g.r.Intn(3); k++ {
+				xs = append(xs, coreExpr(d-1))
+			}
+			return &GExpr{K: "inlist", Not: g.r.Bool(), A: xs}
+		case 12:
+			var xs []*GExpr
+			for k := 0; k < g.r.Intn(4); k++ {
+				xs = append(xs, coreExpr(d-1))
+			}
+			return &GExpr{K: "func", Op: g.r.Pick([]string{"f", "COALESCE", "lower", "Abs", "match", "nullif"}), A: xs}
 		case 0:
 			return &GExpr{K: "not", A: []*GExpr{coreExpr(d - 1)}}
 		case 1, 2:
@@ -428,6 +458,14 @@ func runC03(c *runCtx) {
 				m = m[:j]
 			}
 			exprCorr(append(m, token.Token{Type: models.TokenTypeEOF}), "corrupted")
+		}
+	}
+	// the full expression grammar of the generator (the model answers UNSUPPORTED where it does not reach)
+	for i := 0; i < c.n(2000, 60000); i++ {
+		g.reset()
+		g.Plain = i%3 == 0
+		if ts := toToks(g.renderExpr(g.Expr(1+g.r.Intn(4)), 1)); ts != nil {
+			exprCorr(ts, "full-grammar")
 		}
 	}
 	// deep parentheses and NOT chains around the depth limit
